@@ -1,6 +1,7 @@
 import ExponaxModel.Proofs.Contour
 import ExponaxModel.Generated.Misc
 import ExponaxModel.Model.EtdrkSpec
+import ExponaxModel.Proofs.ReadOffForcing
 /-
 C12 — forcing terms inject exactly the documented field.
 `Gen.Misc.forced_step*` are regenerated from `exponax/_forced_stepper.py`; `Gen.Etdrk.*` from `etdrk/`.
@@ -57,5 +58,23 @@ theorem C12_laminar_steady (σ dt f : ℂ) (hσ : σ ≠ 0) (hdt : dt ≠ 0) :
   ring
 
 example : ((-0.3 : ℂ)) ≠ 0 ∧ ((0.01 : ℂ)) ≠ 0 := by norm_num
+
+/-! ### the injected spectra ARE the transforms of the documented forcing fields (every N with 2m < N) -/
+
+/-- 2-D: at rest the vorticity term returns exactly `rfftn` of `−m s γ cos(m s x₁)`, the curl of `γ sin(m s x₁) e₀`,
+    whatever the convection scale and dealiasing fraction -/
+theorem C12_vorticity_forcing_field (c : Nonlin.Cfg ℂ) (s γ : ℝ) (hs : c.s = (s : ℂ)) (hD : c.D = 2) (scale : ℂ) (m : ℕ)
+    (hm : 2 * m < c.N) (uh : Nonlin.MC ℂ) (h0 : ∀ h, Nonlin.at2 uh 0 h = 0) :
+    (Nonlin.vorticity2d c scale (some (m, (γ : ℂ))) uh).getD 0 #[] =
+      Transform.rfftnM 2 c.N (ReadOff.kolmogorovVorticity c.N m s γ) :=
+  ReadOff.vorticity2d_injection_is_forcing_array c s γ hs hD scale m hm uh h0
+
+/-- 3-D: at rest the velocity term returns `rfftn` of `γ sin(m s x₁)` in channel 0 and zero in channels 1, 2 -/
+theorem C12_velocity_forcing_field (c : Nonlin.Cfg ℂ) (γ : ℝ) (hD : c.D = 3) (m : ℕ) (hm0 : 0 < m) (hm : 2 * m < c.N)
+    (uh : Nonlin.MC ℂ) (h0 : ∀ i h, Nonlin.at2 uh i h = 0) :
+    (Nonlin.projected3d c (some (m, (γ : ℂ))) uh).getD 0 #[] = Transform.rfftnM 3 c.N (ReadOff.kolmogorovVelocity c.N m γ) ∧
+    (Nonlin.projected3d c (some (m, (γ : ℂ))) uh).getD 1 #[] = ExactLinear.vzero (Layout.numModes 3 c.N) ∧
+    (Nonlin.projected3d c (some (m, (γ : ℂ))) uh).getD 2 #[] = ExactLinear.vzero (Layout.numModes 3 c.N) :=
+  ReadOff.projected3d_injection_is_forcing_array c γ hD m hm0 hm uh h0
 
 end Exponax
